@@ -313,7 +313,7 @@ def run(ctx):
                     "how": "SymmetryAnalyzer(atoms with pbc TTF, symmetry_tol=1e-3).get_wyckoff_sets_conventional(return_parameters=True)"})
     import analyzer_hist
     analyzer_hist.check(ctx, "C08", broken)
-    if broken and not ctx.findings:
+    if broken and not ctx.unknown_findings():
         ctx.finding("unproved", "proof/correspondence broken, no failing input found", {"kind": "broken-obligation", "broken": broken}, found_input=False)
     ctx.coverage["broken"] = [{"what": k, "info": i} for k, i in broken]
     ctx.coverage["correspondence_mismatches"] = len(mism)
